@@ -21,7 +21,8 @@ def sig(case, idx, verdict):
 
 
 def check(ctx):
-    vlib.translate(ctx, [("startup_guard", "StartupGuard.lean")])
+    vlib.translate(ctx, [("startup_guard", "StartupGuard.lean"), ("event_tasks", "EventTasks.lean"),
+                         ("scheduler_tasks", "SchedulerTasks.lean")])
     vlib.prove(ctx, ["KrillModel.Props.C09"])
     found = False
     if vlib.build_harness(ctx, ["queue"]):
@@ -55,8 +56,10 @@ def replay(ctx, data):
 MANIFEST = {
     "text": "Lean 4 theorems over a model of Queue/TaskQueue (claim earliest-first, none iff nothing due, soonest keeps the earlier time, "
             "if-missing keeps existing, task names only leave the queue by finish, every running task re-queued at restart for every "
-            "state / number of running tasks / listing order, recurring tasks pending after start) plus the start-up guard regenerated "
-            "from mq.rs; the model is tied to the code by lock-step differential execution on both storage back-ends and by evaluating "
+            "state / number of running tasks / listing order, recurring tasks pending after start) plus tables regenerated from the source "
+            "on every run (start-up guard, event -> follow-up task, task -> possible results, queue_start_tasks) with decide-checked "
+            "theorems (object change -> repo sync, request -> parent sync, activation/removal -> revocation, publication -> RRDP update, "
+            "recurring handlers only ever follow themselves up); the model is tied to the code by lock-step differential execution on both storage back-ends and by evaluating "
             "the theorem predicates on the implementation's own trace",
     "note": "Kernel-checked theorems are about the model; the tie is seeded differential execution plus a syn translator for the start-up "
             "guard. list_keys order is modelled as arbitrary (non-deterministic model). The wall clock is replaced by the injected queue "
